@@ -374,6 +374,9 @@ func (m *envMachine) apply(op V) (res string) {
 		}
 		e.Signatures = e.Signatures[1:]
 		return "ok"
+	case 38: // a signature OBJECT without a signature appended through the Go API (no parsing involved)
+		e.Signatures = append(e.Signatures, new(dsig.Signature))
+		return "ok"
 	}
 	return "skip"
 }
